@@ -72,7 +72,39 @@ func failEdge(c *Ctx, p *ssa.BasicBlock, k int) (bool, string) {
 		}
 	}
 	mark(start)
-	hit, path := reachFrom(start, 0, func(in ssa.Instruction) bool {
+	// the error under test, and the edges on which it was recognised as one particular, expected error
+	// (os.IsNotExist(err), errors.Is(err, …), err == io.EOF): what follows such an edge handles that case, it is
+	// not "carrying on after a failure"
+	var ev ssa.Value
+	if i := blockIf(p); i != nil {
+		if _, x, y, ok := cmpFact(normFact(fact{V: i.Cond, Pol: true})); ok && isNilConst(y) {
+			ev = x
+		}
+	}
+	specific := func(from, to *ssa.BasicBlock) bool {
+		if ev == nil || from == p {
+			return false
+		}
+		for _, fc := range edgeFactsTo(from, to) {
+			if call, _ := callOf(fc.V); call != nil && fc.Pol {
+				switch calleeID(&call.Call) {
+				case "os.IsNotExist", "os.IsExist", "os.IsTimeout", "errors.Is":
+					if len(call.Call.Args) > 0 && sameValue(call.Call.Args[0], ev) {
+						return true
+					}
+				}
+			}
+			if op, x, y, ok := cmpFact(fc); ok && op == token.EQL && sameValue(x, ev) {
+				if u, isU := strip(y).(*ssa.UnOp); isU {
+					if _, isG := u.X.(*ssa.Global); isG {
+						return true
+					}
+				}
+			}
+		}
+		return false
+	}
+	hit, path := reachFromE(start, 0, func(in ssa.Instruction) bool {
 		if in.Block() == p && instrIndex(in) == 0 {
 			return true
 		}
@@ -88,7 +120,7 @@ func failEdge(c *Ctx, p *ssa.BasicBlock, k int) (bool, string) {
 			return isCancelWithError(in)
 		}
 		return false
-	})
+	}, specific)
 	if hit != nil {
 		bad = "reaches " + c.ipos(hit) + " via " + strings.Join(c.pathStr(path), " -> ")
 		return false, bad
